@@ -1,39 +1,43 @@
 /-
-  C07c - the split-parameter gap of `Props/C07b.lean` DECIDED: it is a genuine defect of lyon, reachable end
-  to end, on the real `FillTessellator` and in exact arithmetic on the complete sweep model.
+  C07c - the split-parameter gap of `Props/C07b.lean` DECIDED (it was a genuine defect of lyon, reachable end to
+  end) and, since lyon 96af7b62 (mirrored in the model), REPAIRED.
 
   `Props/C07b.lean` proves the parameter-range clause for runs that take neither `split_edge` (coverage bit 5)
   nor the split of `merge_coincident_edges` (bit 7) and shows, on a hand-made STATE, that the tests of the code
-  do not confine `Sources.splitT`.  Here:
+  did not confine `Sources.splitT`.  This file:
 
-  1. WITNESSES - complete runs of `tessellate` (the bit-exactly tied sweep model; exact rationals, evaluated by
-     the kernel), default tolerance `0.1`, ordinary closed polygons:
+  1. THE TWO END-TO-END WITNESSES of finding `C07-split-parameter-beyond-edge-end` (ordinary closed polygons,
+     default tolerance `0.1`; before the fix the real tessellator and the complete sweep model in exact rational
+     arithmetic agreed on them), now as REPAIRED statements - complete runs of `tessellate` evaluated by the kernel:
      * `coincident_merge_parameter_beyond_end_witness`: two triangles sharing the apex `(0,0)`; the edges
-       `(0,0) → (100, 1/64)` and `(0,0) → (128, 15/1024)` are merged as coincident (angle within `THRESHOLD`,
-       end within half the tolerance of the other edge's line); the second ends EARLIER IN SWEEP ORDER
-       (smaller y) but 28 further in x, so it is the "upper" edge and the first one is "split" at its end:
-       the vertex `(128, 15/1024)` lists `Edge{0 → 1, t = 32/25}`.  The real tessellator reports `t = 1.28`
-       (harness corpus `corpus-beyond-end-merge`).
+       `(0,0) → (100, 1/64)` and `(0,0) → (128, 15/1024)` pass the angle and distance tests of
+       `handle_coincident_edges_below`; the second ends EARLIER IN SWEEP ORDER but 28 further in x.  Before the
+       fix they were merged and the first one "split" at `Sources.splitT = 32/25`: the vertex `(128, 15/1024)`
+       listed `Edge{0 → 1, t = 1.28}`.  Now the guard `endsWithin` rejects the merge (bit 7 is not set), the
+       vertex lists its own endpoint only, and every emitted parameter of the run is in `[0,1]`.
      * `edge_split_parameter_beyond_end_witness`: the flat edge `B = (-10,-1) → (-1/100, 1/1000)` passes `0.02`
-       left of the vertex `V = (0,0)`, which lies `0.01` beyond B's end in x; `is_edge_connecting` (second
-       connecting edge: only `max_x + threshold ≥ x` is required) has B split at V with `t = 1000/999`; the
-       sliver `V → B.to` is then crossed by another flat edge: that crossing lists
-       `Edge{4 → 5, t = 1250375/1249749}` (real tessellator: `t = 1.0005009`, corpus `corpus-beyond-end-split`).
-     Both violate C07's "going a fraction t along that input edge" (`t > 1`; the interpolated attributes are
-     extrapolated): finding `C07-split-parameter-beyond-edge-end`, oracle class `beyond-edge-end`.
-  2. WHAT HOLDS - `split_edge_parameter_bound`: for an edge accepted by `is_edge_connecting` that starts at or
-     above the current vertex the parameter is in `[0,1]` when the edge is at least as steep as 45 degrees and
-     within `threshold/|dx|` of `[0,1]` otherwise (`split_parameter_x_overshoot`); the witnesses show that the
-     overshoot is real.
-  3. THE PROPOSED REPAIR (`fixes/C07-split-parameter-beyond-edge-end.patch`, not applied) keeps every split
-     parameter in `[0,1]`: `split_edge_fixed_parameter_unit` (fall back to the y-parameter, which is what the
-     on-edge test compared, when the x-parameter leaves `[0,1]`; unchanged otherwise: `split_edge_fixed_agrees`)
-     and `merge_guard_parameter_unit` (coincident edges are only merged when the end of the edge that ends
-     first in sweep order does not reach beyond the other edge along the larger extent).
+       left of the vertex `V = (0,0)`, which lies `0.01` beyond B's end in x, and is split there.  Before the fix
+       with `Sources.splitT = 1000/999`, so that the crossing of the sliver `V → B.to` with another edge listed
+       `Edge{4 → 5, t = 1250375/1249749}`; now with `Sources.splitTAtVertex = 1000/1001` (the parameter at V's
+       own y), the crossing lists `t = 1251625/1252251`, and every emitted parameter of the run is in `[0,1]`.
+  2. WHAT THE TESTS OF THE CODE CONFINE - `split_edge_parameter_bound`: for an edge accepted by
+     `is_edge_connecting` that starts at or above the current vertex, the x-parameter `Sources.splitT` is within
+     `threshold/|dx|` of `[0,1]` (`split_parameter_x_overshoot`), not inside: why the fix was needed.
+  3. THE REPAIR, about the model's own definitions (`Sources.splitTAtVertex`, used by `Sweep.splitEdge`; the
+     Boolean `endsWithin` of `Sweep.handleCoincidentEdgesBelow`, `SweepPos.endsWithin_iff_model`):
+     `split_edge_flat_parameter_unit` (edges flatter than 45 degrees: in `[0,1]` unconditionally),
+     `split_edge_fixed_parameter_unit` (all edges that span the current vertex in sweep order),
+     `split_edge_fixed_agrees` (unchanged where the former parameter was in `[0,1]`),
+     `merge_guard_parameter_unit` (under the guard the split parameter of `merge_coincident_edges` is in `[0,1]`),
+     `fixed_split_record_range`.
 
-  NOT done (goal 2 of the task, see conf/C07.json): the POSITION clause lifted to the whole sweep.  The
-  record-level statements stay where they were (`Props/C07.lean`: `rep_intersection`, `rep_touch`,
-  `rep_coincident`, `rep_split_at_vertex`, `rep_history`).
+  NOT done: (a) the `Tainted` restriction of `Props/C07b.lean`'s range theorems is NOT dropped.  What is missing
+  is no longer a property of the split functions but a sweep invariant: on the y-branch `splitTAtVertex` and the
+  guarded `splitT` are in `[0,1]` iff the split point lies between the ends of the edge in y, i.e. "every active
+  edge has `from.y ≤ cur.y ≤ to.y`" and "every pending edge ends below the current vertex and the upper of two
+  merged ends is not below the lower one" - true of the sweep (an active edge starts at an earlier event and is
+  removed at its end; `compare_positions` orders the two ends) but not proved as an invariant preserved by every
+  step function.  (b) the POSITION clause lifted to the whole sweep (record-level statements: `Props/C07.lean`).
 -/
 import LyonVerif.Lemmas.SweepPosSplit
 
@@ -76,38 +80,64 @@ def splitInput : List (SubPath Rat) :=
    ([pr 0 0, pr 3 (-4), pr 4 (-4)], true),
    ([pr (-5) (1/10000), pr 5 (9/10000), pr 0 8], true)]
 
-/-- **`coincident_merge_parameter_beyond_end_witness`** - the complete modelled `FillTessellator`
-(`tessellate_with_ids`, non-zero, vertical sweep, `FillOptions::tolerance = 1/10`, intersections handled, exact
-rational arithmetic) on `mergeInput`: the run succeeds, takes the split branch of `merge_coincident_edges`
-(bit 7), and the fourth emitted vertex - at `(128, 15/1024)`, the end of the second triangle's edge - lists, next
-to its own endpoint record, the record `0 → 1` with `range.start = 32/25`: the source
-`Edge{from: 0, to: 1, t = 1.28}`, a parameter outside `[0,1]` for the edge `(0,0) → (100, 1/64)`. -/
+/-- every `range.start` / `range.end` of every record emitted by a run is in `[0,1]` -/
+def allUnit (out : Array (Emit Rat)) : Bool :=
+  (sources out).all fun v => v.all fun r => decide (0 ≤ r.2.2.1) && decide (r.2.2.1 ≤ 1) && decide (0 ≤ r.2.2.2) && decide (r.2.2.2 ≤ 1)
+
+/-- **`coincident_merge_parameter_beyond_end_witness`** (finding `C07-split-parameter-beyond-edge-end`, part a;
+REPAIRED by lyon 96af7b62).  The data of the witness: `Sources.splitT`, the parameter `merge_coincident_edges`
+computes, is `32/25` for the end `(128, 15/1024)` on the edge `(0,0) → (100, 1/64)` - that is what the vertex
+there listed before the fix (`Edge{0 → 1, t = 1.28}`, model and real tessellator).  The complete modelled
+`FillTessellator` (`tessellate_with_ids`, non-zero, vertical sweep, tolerance `1/10`, exact rationals) on
+`mergeInput` NOW: the run succeeds, does NOT take the split branch of `merge_coincident_edges` (bit 7), the vertex
+at `(128, 15/1024)` lists its endpoint record `5 → 6` only, and every emitted parameter is in `[0,1]`. -/
 theorem coincident_merge_parameter_beyond_end_witness :
-    let r := tessellate .ids .nonZero false (1/10 : Rat) true mergeInput
-    r.1.isNone = true ∧ r.2.2.testBit 7 = true ∧
-    (positions r.2.1)[3]? = some (128, 15/1024) ∧
-    (sources r.2.1)[3]? = some [(5, 6, 0, 1), (0, 1, 32/25, 1)] := by
-  refine ⟨by decide +kernel, by decide +kernel, by decide +kernel, by decide +kernel⟩
+    Sources.splitT (pr 0 0) (pr 100 (1/64)) (pr 128 (15/1024)) = 32/25 ∧
+    (let r := tessellate .ids .nonZero false (1/10 : Rat) true mergeInput
+     r.1.isNone = true ∧ r.2.2.testBit 7 = false ∧
+     (positions r.2.1)[3]? = some (128, 15/1024) ∧
+     (sources r.2.1)[3]? = some [(5, 6, 0, 1)] ∧ allUnit r.2.1 = true) := by
+  refine ⟨by decide +kernel, by decide +kernel, by decide +kernel, by decide +kernel, by decide +kernel, by decide +kernel⟩
 
-/-- **`edge_split_parameter_beyond_end_witness`** - the same on `splitInput`: the run succeeds, takes
-`split_edge` (bit 5) and `process_intersection` (bit 8), and the eighth emitted vertex - the crossing of the
-sliver `V → B.to` with the edge `12 → 13` - lists the record `4 → 5` with `range.start = 1250375/1249749 > 1`. -/
+/-- **`edge_split_parameter_beyond_end_witness`** (part b; REPAIRED).  For the edge `B` and the vertex `V` the
+x-parameter `Sources.splitT` is `1000/999` (what `split_edge` stored before the fix: the crossing of the sliver
+then listed `t = 1250375/1249749`), the repaired `Sources.splitTAtVertex` is `1000/1001`.  The complete run on
+`splitInput` NOW: succeeds, takes `split_edge` (bit 5) and `process_intersection` (bit 8), the eighth emitted
+vertex - the crossing of the sliver `V → B.to` with the edge `12 → 13` - lists the record `4 → 5` with
+`range.start = 1251625/1252251 < 1`, and every emitted parameter is in `[0,1]`. -/
 theorem edge_split_parameter_beyond_end_witness :
-    let r := tessellate .ids .nonZero false (1/10 : Rat) true splitInput
-    r.1.isNone = true ∧ r.2.2.testBit 5 = true ∧ r.2.2.testBit 8 = true ∧
-    (sources r.2.1)[7]? = some [(4, 5, 1250375/1249749, 1), (12, 13, 4999/10008, 1)] := by
-  refine ⟨by decide +kernel, by decide +kernel, by decide +kernel, by decide +kernel⟩
+    Sources.splitT (pr (-10) (-1)) (pr (-1/100) (1/1000)) (pr 0 0) = 1000/999 ∧
+    Sources.splitTAtVertex (pr (-10) (-1)) (pr (-1/100) (1/1000)) (pr 0 0) = 1000/1001 ∧
+    (let r := tessellate .ids .nonZero false (1/10 : Rat) true splitInput
+     r.1.isNone = true ∧ r.2.2.testBit 5 = true ∧ r.2.2.testBit 8 = true ∧
+     (sources r.2.1)[7]? = some [(4, 5, 1251625/1252251, 1), (12, 13, 4999/10008, 1)] ∧ allUnit r.2.1 = true) := by
+  refine ⟨by decide +kernel, by decide +kernel, by decide +kernel, by decide +kernel, by decide +kernel,
+    by decide +kernel, by decide +kernel⟩
 
-/-- both runs are `Tainted` in the sense of `Props/C07b.lean`: that is why `sweep_records_unit_partial` does not
-apply to them - and the two theorems above show that its conclusion fails on them -/
+/-- the merge input no longer taints its run (so `sweep_records_unit_partial` applies to it, see the example
+below); the split input still takes `split_edge` and is `Tainted` in the sense of `Props/C07b.lean` - its
+parameters are in `[0,1]` by evaluation (above), not by `sweep_records_unit_partial` -/
 theorem witness_runs_tainted :
-    Tainted (tessellate .ids .nonZero false (1/10 : Rat) true mergeInput).2.2 ∧
-    Tainted (tessellate .ids .nonZero false (1/10 : Rat) true splitInput).2.2 :=
-  ⟨Or.inr (by decide +kernel), Or.inl (by decide +kernel)⟩
+    ¬ Tainted (tessellate .ids .nonZero false (1/10 : Rat) true mergeInput).2.2 ∧
+    Tainted (tessellate .ids .nonZero false (1/10 : Rat) true splitInput).2.2 := by
+  refine ⟨?_, Or.inl (by decide +kernel)⟩
+  intro h
+  rcases h with h | h <;> revert h <;> decide +kernel
+
+/-- `sweep_records_range_partial` applied to the repaired merge run (hypotheses discharged) -/
+example (d : EdgeData Rat)
+    (hd : Emitted (tessellate .ids .nonZero false (1/10 : Rat) true mergeInput).2.1 d) :
+    (0 ≤ d.t0 ∧ d.t0 ≤ 1) ∧ (0 ≤ d.t1 ∧ d.t1 ≤ 1) := by
+  refine sweep_records_range_partial (fun t : Rat => 0 ≤ t ∧ t ≤ 1) (fun v : Rat => 0 ≤ v ∧ v ≤ 1) (fun w : Rat => w ≤ 1)
+    closure_rat wclosure_rat ?_ ?_ _ _ _ _ _ _ d hd witness_runs_tainted.1
+  · show (0 : Rat) ≤ ((0 : Nat) : Rat) ∧ ((0 : Nat) : Rat) ≤ 1
+    simp
+  · show (0 : Rat) ≤ ((1 : Nat) : Rat) ∧ ((1 : Nat) : Rat) ≤ 1
+    simp
 
 end witnesses
 
-/-! ## 2. what the code does confine; 3. the repair -/
+/-! ## 2. what the tests of the code confine; 3. the repair -/
 
 section field
 variable {K : Type} [Field K] [LinearOrder K] [IsStrictOrderedRing K]
@@ -135,28 +165,36 @@ theorem split_edge_parameter_bound [w : Wide K] (cur : P K) (tol : K) (e : Activ
       Sources.splitT e.from_ e.to cur ≤ 1 + onEdgeThreshold tol cur.x / |e.to.x - e.from_.x|) :=
   splitEdge_parameter_bound cur tol e c h hne hfrom hthr
 
-/-- **`split_edge_fixed_parameter_unit`** - the parameter of the PATCHED `split_edge` (`splitTFixed`) is in
-`[0,1]` for every non-degenerate edge that spans the current vertex in sweep order, wherever the vertex is in x -/
+/-- **`split_edge_flat_parameter_unit`** - the parameter the repaired `split_edge` computes
+(`Sources.splitTAtVertex`, the model's own function) for an edge flatter than 45 degrees - the branch in which the
+defect lived - is in `[0,1]` UNCONDITIONALLY: wherever the vertex is, whatever the edge -/
+theorem split_edge_flat_parameter_unit (a b c : P K) (hb : |b.y - a.y| < |b.x - a.x|) :
+    0 ≤ Sources.splitTAtVertex a b c ∧ Sources.splitTAtVertex a b c ≤ 1 := splitTAtVertex_unit_flat a b c hb
+
+/-- **`split_edge_fixed_parameter_unit`** - the parameter of the repaired `split_edge`
+(`Sources.splitTAtVertex`) is in `[0,1]` for every non-degenerate edge that spans the current vertex in sweep
+order, wherever the vertex is in x -/
 theorem split_edge_fixed_parameter_unit (a b c : P K) (hne : a ≠ b) (hya : a.y ≤ c.y) (hyb : c.y ≤ b.y) :
-    0 ≤ splitTFixed a b c ∧ splitTFixed a b c ≤ 1 := splitTFixed_unit a b c hne hya hyb
+    0 ≤ Sources.splitTAtVertex a b c ∧ Sources.splitTAtVertex a b c ≤ 1 := splitTAtVertex_unit a b c hne hya hyb
 
-/-- the patch changes nothing where the present parameter is in `[0,1]` -/
+/-- the fix changed nothing where the former parameter was in `[0,1]` -/
 theorem split_edge_fixed_agrees (a b c : P K) (h : 0 ≤ Sources.splitT a b c ∧ Sources.splitT a b c ≤ 1) :
-    splitTFixed a b c = Sources.splitT a b c := splitTFixed_eq a b c h
+    Sources.splitTAtVertex a b c = Sources.splitT a b c := splitTAtVertex_eq a b c h
 
-/-- **`merge_guard_parameter_unit`** - under the guard the patch adds to `handle_coincident_edges_below`
-(`endsWithin (long_to - from) (short_to - from)`) the split parameter of `merge_coincident_edges` is in `[0,1]` -/
+/-- **`merge_guard_parameter_unit`** - under the guard of the repaired `handle_coincident_edges_below`
+(`endsWithin (long_to - from) (short_to - from)`; it IS the Boolean the model computes:
+`SweepPos.endsWithin_iff_model`) the split parameter of `merge_coincident_edges` is in `[0,1]` -/
 theorem merge_guard_parameter_unit (cur long short : P K) (hne : cur ≠ long)
     (hg : endsWithin (long - cur) (short - cur)) (hy0 : cur.y ≤ short.y) (hy1 : short.y ≤ long.y) :
     0 ≤ Sources.splitT cur long short ∧ Sources.splitT cur long short ≤ 1 :=
   merge_guard_unit cur long short hne hg hy0 hy1
 
-/-- with a parameter in `[0,1]` the record keeps the range discipline of `Props/C07b.lean`
-(`split_records_range`): the patched branches would no longer taint a run -/
+/-- with a parameter in `[0,1]` the record `split_edge` pushes keeps the range discipline of `Props/C07b.lean`
+(`split_records_range`) -/
 theorem fixed_split_record_range (lo hi s e : K) (a b c : P K) (hne : a ≠ b) (hya : a.y ≤ c.y) (hyb : c.y ≤ b.y)
     (hs : lo ≤ s ∧ s ≤ hi) (he : lo ≤ e ∧ e ≤ hi) :
-    lo ≤ Sources.remapT (splitTFixed a b c) s e ∧ Sources.remapT (splitTFixed a b c) s e ≤ hi :=
-  C07b.split_records_range lo hi _ s e (splitTFixed_unit a b c hne hya hyb) hs he
+    lo ≤ Sources.remapT (Sources.splitTAtVertex a b c) s e ∧ Sources.remapT (Sources.splitTAtVertex a b c) s e ≤ hi :=
+  C07b.split_records_range lo hi _ s e (splitTAtVertex_unit a b c hne hya hyb) hs he
 
 end field
 
@@ -178,11 +216,10 @@ example :
   rw [splitT_x _ _ _ (by norm_num [abs_of_pos])]
   norm_num
 
-/-- ... and the patched parameter for the same data is the y-parameter `1000/1001` -/
-example : splitTFixed (⟨-10, -1⟩ : P ℚ) ⟨-1/100, 1/1000⟩ ⟨0, 0⟩ = 1000/1001 := by
+/-- ... and the repaired parameter for the same data is the y-parameter `1000/1001` -/
+example : Sources.splitTAtVertex (⟨-10, -1⟩ : P ℚ) ⟨-1/100, 1/1000⟩ ⟨0, 0⟩ = 1000/1001 := by
   have hb : |(1/1000 : ℚ) - (-1)| < |(-1/100 : ℚ) - (-10)| := by norm_num [abs_of_pos]
-  unfold splitTFixed
-  rw [if_pos hb, solveTForX_eq _ _ _ (by norm_num), solveTForY_eq _ _ _ (by norm_num)]
+  rw [splitTAtVertex_def, if_pos hb, solveTForX_eq _ _ _ (by norm_num), solveTForY_eq _ _ _ (by norm_num)]
   norm_num
 
 /-- the guard rejects the merge of `mergeInput` (the end `(128, 15/1024)` reaches beyond `(100, 1/64)` in x) and
